@@ -143,3 +143,18 @@ Theorem C04_witness : outs w_uids =
            [(101, true, false, 1); (102, true, false, 2); (104, true, false, 4)] ].
 Proof. exact w_uids_outs. Qed.
 Print Assumptions C04_witness.
+
+(* open finding C04-F1 (not covered): a connection whose selected name was
+   re-bound to another mailbox (RENAME INBOX by someone else) is reachable;
+   its view still lists UID 101 while the mailbox its commands now resolve to
+   holds a different message under 101.  The model refuses such commands
+   ([OStaleCmd]); the real server answers them from the other mailbox. *)
+Theorem C04_refuted_stale_selection :
+  exists tr s, resolve (run init tr) s = RStale /\
+    snd (step (run init tr) (Fetch s) ch0) = OStaleCmd /\
+    exists sl i b, lookup s (sess (run init tr)) = Some sl /\
+      find_box (run init tr) (s_name sl) = Some (i, b) /\ i <> s_bid sl /\
+      (exists m, In m (b_msgs b) /\ m_uid m = 101 /\ m_mark m = 2) /\
+      In 101 (s_view sl).
+Proof. exact w_stale_reachable. Qed.
+Print Assumptions C04_refuted_stale_selection.
